@@ -62,7 +62,7 @@ fn gen_command(rng: &mut Rng, conn_id: u64) -> Vec<u8> {
         10 => {
             // invalid / malformed THROTTLE
             let key = format!("c{}bad", conn_id);
-            match rng.below(8) {
+            match rng.below(11) {
                 0 => array(&[bulk(b"THROTTLE"), bulk(key.as_bytes()), int(3), int(1)]),
                 1 => array(&[bulk(b"THROTTLE"), bulk(key.as_bytes()), int(3), int(1), int(60), int(1), int(9)]),
                 2 => array(&[bulk(b"THROTTLE"), bulk(key.as_bytes()), bulk(b"abc"), int(1), int(60)]),
@@ -70,7 +70,16 @@ fn gen_command(rng: &mut Rng, conn_id: u64) -> Vec<u8> {
                 4 => array(&[bulk(b"THROTTLE"), bulk(key.as_bytes()), int(3), int(-1), int(60)]),
                 5 => array(&[bulk(b"THROTTLE"), bulk(key.as_bytes()), int(3), int(1), int(60), int(-2)]),
                 6 => array(&[bulk(b"THROTTLE"), b"$-1\r\n".to_vec(), int(3), int(1), int(60)]),
-                _ => array(&[bulk(b"THROTTLE"), int(5), int(3), int(1), int(60)]),
+                7 => array(&[bulk(b"THROTTLE"), int(5), int(3), int(1), int(60)]),
+                _ => {
+                    // client text with line breaks / frame look-alikes in every argument position
+                    let evil: &[&[u8]] = &[b"10\r\n", b"+PONG\r\n+PONG", b"1\r\n:1", b"\r\n", b"7\n", b"x\r\n$-1"];
+                    let pos = rng.below(5) as usize;
+                    let mut items = vec![bulk(b"THROTTLE"), bulk(key.as_bytes()), int(3), int(1), int(60), int(1)];
+                    let e: &[u8] = evil[rng.below(evil.len() as u64) as usize]; items[1 + pos] = bulk(e);
+                    if pos < 4 && rng.chance(1, 2) { items.truncate(5); }
+                    array(&items)
+                }
             }
         }
         11 => array(&[bulk(&rand_name(rng))]),
